@@ -10,7 +10,9 @@
    store under the file-system recorder. *)
 EXTENDS Integers, Sequences, FiniteSets, TLC, Json
 
-CONSTANTS Keys, Children, Vals, MaxHist, SkipConflictOnReplay
+CONSTANTS Keys, Children, Vals, MaxHist, SkipConflictOnReplay,
+          SkipOnlyAtTail,   \* variant: replay tolerates the rejected entry only when it is the last one of the log
+          MaxCrash          \* number of crash / recover cycles explored
 Emit(r) == PrintT("@@" \o ToJson(r))
 
 Muts == [t : {"put"}, k : Keys, v : Vals] \cup [t : {"del"}, k : Keys]
@@ -27,45 +29,55 @@ Apply(m, st) ==
     [] m.t = "rmk" -> <<[st EXCEPT !.s[m.k] = "", !.ch[m.k] = {}], TRUE>>
 RECURSIVE Fold(_, _)
 Fold(seq, st) == IF seq = <<>> THEN st ELSE Fold(Tail(seq), Apply(seq[1], st)[1])
-RECURSIVE Replay(_, _)
-Replay(seq, st) ==
+RECURSIVE ReplayFrom(_, _, _)
+ReplayFrom(seq, st, last) ==      \* last = TRUE iff seq holds the tail of the log
   IF seq = <<>> THEN <<st, TRUE>>
-  ELSE LET r == Apply(seq[1], st) IN
-       IF r[2] \/ SkipConflictOnReplay THEN Replay(Tail(seq), r[1]) ELSE <<st, FALSE>>
+  ELSE LET r == Apply(seq[1], st)
+           tolerated == SkipConflictOnReplay /\ (~SkipOnlyAtTail \/ Len(seq) = 1) IN
+       IF r[2] \/ tolerated THEN ReplayFrom(Tail(seq), r[1], last) ELSE <<st, FALSE>>
+Replay(seq, st) == ReplayFrom(seq, st, TRUE)
 
 VARIABLES seg,      \* entries in the tail segment file
           endf,     \* the <segment>.END file written by TruncateBack: [there, c]
           segthere, \* FALSE between remove(segment) and rename(.END -> segment)
-          mem, pc, cur, issued, acked, att, crashed, rec
-vars == <<seg, endf, segthere, mem, pc, cur, issued, acked, att, crashed, rec>>
+          mem, pc, cur, issued, acked, att, crashed, rec, ncrash
+vars == <<seg, endf, segthere, mem, pc, cur, issued, acked, att, crashed, rec, ncrash>>
 Init == /\ seg = <<>> /\ endf = [there |-> FALSE, c |-> <<>>] /\ segthere = TRUE /\ mem = EmptySt /\ pc = "idle"
-        /\ cur = "none" /\ issued = <<>> /\ acked = <<>> /\ att = <<>> /\ crashed = FALSE /\ rec = "none"
+        /\ cur = "none" /\ issued = <<>> /\ acked = <<>> /\ att = <<>> /\ crashed = FALSE /\ rec = "none" /\ ncrash = 0
 Issue == /\ ~crashed /\ pc = "idle" /\ Len(att) < MaxHist
          /\ \E m \in Muts : cur' = m /\ issued' = Append(issued, m)
-         /\ pc' = "append" /\ UNCHANGED <<seg, endf, segthere, mem, acked, att, crashed, rec>>
+         /\ pc' = "append" /\ UNCHANGED <<seg, endf, segthere, mem, acked, att, crashed, rec, ncrash>>
 AppendLog == /\ ~crashed /\ pc = "append" /\ seg' = Append(seg, cur) /\ pc' = "apply"
-             /\ UNCHANGED <<endf, segthere, mem, cur, issued, acked, att, crashed, rec>>
+             /\ UNCHANGED <<endf, segthere, mem, cur, issued, acked, att, crashed, rec, ncrash>>
 ApplyMem == /\ ~crashed /\ pc = "apply"
             /\ LET r == Apply(cur, mem) IN mem' = r[1] /\ pc' = IF r[2] THEN "ack" ELSE "rb_end"
-            /\ UNCHANGED <<seg, endf, segthere, cur, issued, acked, att, crashed, rec>>
+            /\ UNCHANGED <<seg, endf, segthere, cur, issued, acked, att, crashed, rec, ncrash>>
 RbWriteEnd == /\ ~crashed /\ pc = "rb_end" /\ endf' = [there |-> TRUE, c |-> SubSeq(seg, 1, Len(seg) - 1)] /\ pc' = "rb_rm"
-              /\ UNCHANGED <<seg, segthere, mem, cur, issued, acked, att, crashed, rec>>
+              /\ UNCHANGED <<seg, segthere, mem, cur, issued, acked, att, crashed, rec, ncrash>>
 RbRemove == /\ ~crashed /\ pc = "rb_rm" /\ segthere' = FALSE /\ pc' = "rb_mv"
-            /\ UNCHANGED <<seg, endf, mem, cur, issued, acked, att, crashed, rec>>
+            /\ UNCHANGED <<seg, endf, mem, cur, issued, acked, att, crashed, rec, ncrash>>
 RbRename == /\ ~crashed /\ pc = "rb_mv" /\ seg' = endf.c /\ endf' = [there |-> FALSE, c |-> <<>>] /\ segthere' = TRUE /\ pc' = "nack"
-            /\ UNCHANGED <<mem, cur, issued, acked, att, crashed, rec>>
+            /\ UNCHANGED <<mem, cur, issued, acked, att, crashed, rec, ncrash>>
 Ack == /\ ~crashed /\ pc \in {"ack", "nack"}
        /\ acked' = IF pc = "ack" THEN Append(acked, cur) ELSE acked
        /\ issued' = IF pc = "nack" THEN SubSeq(issued, 1, Len(issued) - 1) ELSE issued   \* rejected: no effect
        /\ att' = Append(att, [m |-> cur, ok |-> pc = "ack"])
        /\ pc' = "idle" /\ cur' = "none"
-       /\ UNCHANGED <<seg, endf, segthere, mem, crashed, rec>>
-Crash == /\ ~crashed /\ crashed' = TRUE
+       /\ UNCHANGED <<seg, endf, segthere, mem, crashed, rec, ncrash>>
+Crash == /\ ~crashed /\ crashed' = TRUE /\ ncrash < MaxCrash /\ ncrash' = ncrash + 1
          /\ LET disk == IF endf.there THEN endf.c ELSE seg   \* wal load(): .END wins, leftovers are removed
                 r == Replay(disk, EmptySt) IN
             rec' = [ok |-> r[2], st |-> r[1], disk |-> disk]
          /\ UNCHANGED <<seg, endf, segthere, mem, pc, cur, issued, acked, att>>
-Next == Issue \/ AppendLog \/ ApplyMem \/ RbWriteEnd \/ RbRemove \/ RbRename \/ Ack \/ Crash
+(* the recovered store goes on: the log is what load() left (an interrupted roll-back is completed, everything else stays,
+   including a tolerated rejected entry), memory is the replayed state, the mutation in flight is forgotten *)
+Recover == /\ crashed /\ rec.ok
+           /\ crashed' = FALSE /\ seg' = rec.disk /\ endf' = [there |-> FALSE, c |-> <<>>] /\ segthere' = TRUE
+           /\ mem' = rec.st /\ pc' = "idle" /\ cur' = "none"
+           /\ issued' = (CHOOSE q \in {SubSeq(issued, 1, n) : n \in Len(acked)..Len(issued)} : rec.st = Fold(q, EmptySt))
+           /\ acked' = issued'      \* whatever survived counts as acknowledged from now on
+           /\ UNCHANGED <<att, rec, ncrash>>
+Next == Issue \/ AppendLog \/ ApplyMem \/ RbWriteEnd \/ RbRemove \/ RbRename \/ Ack \/ Crash \/ Recover
 Spec == Init /\ [][Next]_vars
 GenSpec == Init /\ [][Issue \/ AppendLog \/ ApplyMem \/ RbWriteEnd \/ RbRemove \/ RbRename \/ Ack]_vars     \* no crash: complete histories
 
